@@ -566,6 +566,31 @@ def corr_inline_check(ck, drv):
                                        "mismatches": mism, "skipped": skipped}
 
 
+def corr_policy(ck, drv):
+    """tie H for Func.policy (= `max_opset_policy`): requirement sets that spell the default domain both ways, with
+    duplicates, in any order - all lists up to length 3 over {"", "ai.onnx"} x {12, 17, 19} plus random longer ones."""
+    from spox._schemas import max_opset_policy
+
+    rng = ck.rng
+    small = [(d, v) for d in ("", "ai.onnx") for v in (12, 17, 19)]
+    cases = [list(c) for n in (0, 1, 2, 3) for c in itertools.product(small, repeat=n)]
+    doms = ["", "ai.onnx", "ai.onnx", "ai.onnx.ml", "dom.a", "ai.onnx.training"]
+    for _ in range(300):
+        cases.append([(rng.choice(doms), rng.randrange(1, 26)) for _ in range(rng.randrange(1, 9))])
+    outs = drv.ask_many("C02", [{"k": "policy", "req": [[d, v] for d, v in c]} for c in cases])
+    mism = 0
+    for c, o in zip(cases, outs):
+        ck.count(None)
+        real = dict(max_opset_policy(set(c)))
+        model = {d: v for d, v in o.get("policy", [["<error>", 0]])}
+        if model != real or len(o.get("policy", [])) != len(model):
+            mism += 1
+            if mism <= 3:
+                ck.broken("correspondence", "C02 max_opset_policy vs Func.policy (two spellings of the default domain)",
+                          f"req={c} model={o} real={real}")
+    ck.cov["opset_policy"] = {"cases": len(cases), "mismatches": mism}
+
+
 def corr_intro_req(ck, drv):
     """tie H for Model/InternalReq.lean: the real `opset_req` of the `_Introduce` node behind `intros(...)` for every
     combination of value kinds (tensor / sequence / optional / optional-of-sequence / untyped) up to length 3."""
@@ -646,7 +671,9 @@ def judge_typed(ck, typed_results):
         if r["bad"]:
             key = ADV.classify(case, r["bad"]) if case.get("kind") == "adv" else TY.classify(case, r["bad"])
             cur = best.get(key)
-            if cur is None or len(json.dumps(case)) < len(json.dumps(cur[0])):
+            # (fewest model inputs first: with one input the replay does not depend on the traversal order of a set)
+            size = lambda c: (c.get("nin", 0), len(json.dumps(c)))  # noqa: E731
+            if cur is None or size(case) < size(cur[0]):
                 best[key] = (case, r["bad"])
         else:
             st["returned_valid"] += 1
@@ -863,6 +890,11 @@ def run(ck: core.Check):
             ck.broken("correspondence", "C02 inline argument check not observable", f"{type(e).__name__}: {e}")
 
     # (e) opset requirement of the internal forwarding operator; Identity's type support from onnx.defs (tie G)
+    if drv is not None:
+        try:
+            corr_policy(ck, drv)
+        except Exception as e:  # noqa: BLE001
+            ck.broken("correspondence", "C02 max_opset_policy not observable", f"{type(e).__name__}: {e}")
     if drv is not None:
         try:
             with warnings.catch_warnings():
